@@ -65,7 +65,7 @@ def main():
     # after the race: every ring size up to the largest one requested, so that an entry of a lazily grown table that
     # was corrupted during the race is seen whichever index it sits at
     scan = []
-    for n in range(1, int(q.get("scan_rings", 0)) + 1):
+    for n in range(int(q.get("scan_lo", 1)), int(q.get("scan_rings", 0)) + 1):
         try:
             scan.append(sf.encoder("C1" + "C" * (n + 1) + "1"))
         except Exception as e:  # noqa
